@@ -11,11 +11,13 @@ package main
 import (
 	"context"
 	"fmt"
+	"strings"
 	"sync"
 
 	"github.com/containerd/containerd/v2/core/mount"
 	"github.com/containerd/containerd/v2/core/snapshots"
 	"github.com/containerd/errdefs"
+	"github.com/containerd/stargz-snapshotter/snapshot"
 	"verif/harness/hx"
 	"verif/harness/snapx"
 )
@@ -29,7 +31,14 @@ type Case struct {
 	Async   bool  `json:"async"`
 	Threads int   `json:"threads"`
 	Ops     []TOp `json:"ops"`
+	// Scenario "key-reuse": deterministic schedule (witness of C08_conc_remote_has_mount_refuted): thread 0's
+	// Prepare(k30, target k31) is held at the marker between its backend Mount and its internal commit while the
+	// main thread removes k30 and prepares k30 again; then thread 0 commits.
+	Scenario string `json:"scenario,omitempty"`
 }
+
+// SigKeyReuse: known-finding class F67.
+const SigKeyReuse = "C08-conc-key-removed-and-reused-during-prepare"
 
 const sharedN = 10 // names 0..9 are shared (never removed); thread i owns 20+20i .. 39+20i
 
@@ -173,12 +182,34 @@ func exec(c Case) (problems []string, stats map[string]int) {
 		name, known := r.owner[id]
 		r.mu.Unlock()
 		if !known {
+			if c.Scenario == "key-reuse" {
+				return // part of the scripted witness of finding F67 (reported at quiescence)
+			}
 			r.problem("live backend mount %d unmounted while the Prepare that mounted it is still in flight", id)
 			return
 		}
 		if _, serr := m.SN.Stat(context.Background(), snapx.Name(name)); serr == nil {
 			r.problem("live backend mount %d of snapshot %s unmounted while the snapshot is still in metadata", id, snapx.Name(name))
 		}
+	}
+	if c.Scenario == "key-reuse" {
+		L := func(t int) snapx.Labels { return snapx.Labels{T: t} }
+		reached, resume := make(chan struct{}), make(chan struct{})
+		var once sync.Once
+		snapshot.VerifOnCrashPoint(func(point string) {
+			if point == "prepare.mounted" {
+				once.Do(func() { close(reached); <-resume })
+			}
+		})
+		done := make(chan string)
+		go func() { done <- r.do(snapx.Op{Op: "prepare", Key: 30, Parent: -1, L: L(31), MOK: true}) }()
+		<-reached
+		stats["class.scenario.remove."+r.do(snapx.Op{Op: "remove", Key: 30, Parent: -1, L: snapx.NoLabels})]++
+		stats["class.scenario.prepare."+r.do(snapx.Op{Op: "prepare", Key: 30, Parent: -1, L: snapx.NoLabels, MOK: true})]++
+		close(resume)
+		stats["class.scenario.held-prepare."+<-done]++
+		snapshot.VerifOnCrashPoint(nil)
+		stats["scenario.key-reuse"]++
 	}
 	// sequential set-up
 	var perThread [][]snapx.Op
@@ -241,6 +272,10 @@ func exec(c Case) (problems []string, stats map[string]int) {
 	}
 	for id, name := range r.owner {
 		if live[name] && !mounted[id] {
+			if c.Scenario == "key-reuse" && name == 31 {
+				r.problems = append(r.problems, "FINDING:"+fmt.Sprintf("snapshot %s was committed as remote by a Prepare whose key was removed and prepared again while it was between Mount and commit: it is in metadata, marked remote, and has no backend mount (the mount %d it made was unmounted with the removed snapshot)", snapx.Name(name), id))
+				continue
+			}
 			r.problem("at quiescence: snapshot %s is in metadata but its backend mount %d is gone", snapx.Name(name), id)
 		}
 		if !live[name] && mounted[id] && !r.leaked[id] && c.Async == false {
@@ -368,6 +403,11 @@ func main() {
 		key := fmt.Sprintf("%v", c)
 		id := ctx.Case("(true, [], [])", c, key, stats["overlapping-calls"] > 0)
 		for _, p := range problems {
+			if strings.HasPrefix(p, "FINDING:") {
+				ctx.Count("finding." + SigKeyReuse)
+				ctx.Finding(id, SigKeyReuse, strings.TrimPrefix(p, "FINDING:"), nil)
+				continue
+			}
 			ctx.Violation(id, p, nil)
 		}
 	}
@@ -378,8 +418,9 @@ func main() {
 		ctx.Finish()
 		return
 	}
+	emit(Case{Threads: 1, Scenario: "key-reuse"})
 	r := hx.NewRng(ctx.Seed)
-	for i := 0; i < ctx.N; i++ {
+	for i := 1; i < ctx.N; i++ {
 		emit(gen(r.Fork()))
 	}
 	ctx.Finish()
